@@ -19,14 +19,14 @@ RULE = ('one run = one seeded history of NEWVAR / PUSH / POP(close|drop|resume) 
         'one program answer; non-trivial = the saved value is compound and ground; distinct = hash of (value, order in which its parts were bound)')
 ASSUMPTIONS = [
     'non-ground saved values are only checked at the moment of saving (their unbound variables may legitimately be bound later)',
-    'frames end in LIFO order',
+    'frames of the history end in LIFO order; the independent enumerations (SIDE) start, advance and end at any point of it',
     'to_python results are compared with the documented mapping (atoms -> names, ints, lists, (name, args), unbound -> None)',
 ]
 COMPONENTS = {'real': ['yldprolog.engine Variable/Functor get_value and to_python, unify, findall, assert_fact', 'compiler + generated clauses for the program part'],
               'stub': ['consumer holding the open unifications and saved values'],
               'oracle': ['substitution-stack model (ypsim.terms) rendered through the documented to_python mapping']}
 REQUIRED_PROBES = ('term_built_and_kept', 'fault_recursion_inside_get_value', 'fault_recursion_inside_to_python', 'save_ground_compound', 'save_outer_older_than_inner', 'read_after_pop', 'program_collect_idiom', 'program_findall', 'program_assert',
-                   'pop_close', 'pop_drop', 'pop_resume', 'pop_throw')
+                   'pop_close', 'pop_drop', 'pop_resume', 'pop_throw', 'side_advanced_or_ended_while_younger_generators_suspended', 'program_bounded_projection_fault')
 
 
 def ground_term(rng, depth):
@@ -116,6 +116,12 @@ def gen(seed, tier):
             t1 = ('v', rng.randrange(nv))
             t2 = TM.rnd_term(rng, nv, 2, p_var=0.4) if rng.random() < 0.7 else ('a', rng.choice('ab'))
             ops.append(['PUSH', TM.J(t1), TM.J(t2)])
+    if rng.random() < 0.35:
+        # independent enumerations (over variables of their own, on this engine or another one) suspended at an answer
+        # while the history goes on, and advanced / ended in any order relative to the frames of the history
+        for _ in range(rng.randrange(1, 5)):
+            pos = rng.randrange(len(ops) + 1)
+            ops.insert(pos, ['SIDE', rng.random() < 0.3] if rng.random() < 0.5 else ['SIDESTEP', rng.randrange(4), rng.choice(('step', 'step', 'close', 'drop'))])
     program = None
     if rng.random() < 0.3:
         target = ground_term(rng, rng.choice((1, 2, 3)))
@@ -142,6 +148,10 @@ def show_op(op):
         return 'SAVE %s' % TM.show(TM.T(op[1]))
     if op[0] == 'MKTERM':
         return 'MKTERM %s (built now, read at every later event)' % TM.show(TM.T(op[1]))
+    if op[0] == 'SIDE':
+        return 'SIDE start an independent enumeration sf(A,B) on %s and stop at its first answer' % ('another engine' if op[1] else 'this engine')
+    if op[0] == 'SIDESTEP':
+        return 'SIDESTEP %s independent enumeration #%d' % (op[2], op[1])
     if op[0] == 'FAULT':
         return 'FAULT recursion limit strikes inside %s of a deep %s (handled by the caller)' % (op[1], op[2])
     return ' '.join(str(x) for x in op)
@@ -191,8 +201,32 @@ def execute(plan):
     stack = []
     saved = []          # (value, to_python at save time (model), description)
     kept_terms = []     # (model term, engine term) built by MKTERM
+    sides = []          # [task, (A, B), row index] independent enumerations of sf/2
+    SF = [('one', 1), ('two', 2), ('three', 3)]
+    side_engines = {}
+
+    def side_engine(other):
+        if other not in side_engines:
+            e = YP() if other else yp
+            for nm, i in SF:
+                e.assert_fact(e.atom('sf'), [e.functor('k', [e.atom(nm)]), e.listpair(i, e.ATOM_NIL)])
+            side_engines[other] = e
+        return side_engines[other]
 
     def check_now(tag):
+        for n_, (t_, (a_, b_), row) in enumerate(sides):
+            if t_.done:
+                wa, wb = None, None
+            else:
+                wa, wb = ('k', [SF[row][0]]), [SF[row][1]]
+            try:
+                ga, gb = to_python(a_), to_python(b_)
+            except Exception as e:
+                log.violation('to_python-raises', {'at': tag, 'independent_enumeration': n_, 'exception': type(e).__name__})
+                return False
+            if pyj(ga) != pyj(wa) or pyj(gb) != pyj(wb):
+                log.violation('answer-of-independent-enumeration-misses-binding', {'at': tag, 'enumeration': n_, 'answer_index': row, 'engine': [pyj(ga), pyj(gb)], 'expected': [pyj(wa), pyj(wb)]})
+                return False
         # terms built earlier over the pool variables must reflect the bindings as they are now
         for mt_, et_ in kept_terms:
             ids_ = pool.ids()
@@ -293,6 +327,34 @@ def execute(plan):
                     kept_terms.append((t, pool.build(t)))
                     log.count('term_built_and_kept')
                     log.ev('mkterm', TM.show(t))
+            elif kind == 'SIDE':
+                if len(sides) >= 4:
+                    log.ev('noop')
+                    continue
+                e = side_engine(bool(op[1]))
+                a_, b_ = e.variable(), e.variable()
+                t_ = GenTask(e.query('sf', [a_, b_]))
+                t_.step()
+                sides.append([t_, (a_, b_), 0])
+                log.count('side_started')
+                log.ev('side', bool(op[1]))
+            elif kind == 'SIDESTEP':
+                live_ = [x for x in sides if not x[0].done]
+                if not live_:
+                    log.ev('noop')
+                    continue
+                x = live_[op[1] % len(live_)]
+                younger = any(y is not x and not y[0].done for y in sides[sides.index(x) + 1:]) or bool(stack)
+                if op[2] == 'step':
+                    if x[0].step():
+                        x[2] += 1
+                elif op[2] == 'close':
+                    x[0].close()
+                else:
+                    x[0].drop()
+                if younger:
+                    log.count('side_advanced_or_ended_while_younger_generators_suspended')
+                log.ev('sidestep', op[2], x[0].done)
             elif kind == 'FAULT':
                 # the interpreter raises RecursionError in the middle of a dereference; the caller handles it.
                 # Nothing about later dereferences may change because of that.
@@ -356,6 +418,9 @@ def execute(plan):
         log.violation('recursion-error', {})
     while stack:
         stack.pop()[0].close()
+    for x in sides:
+        if not x[0].done:
+            x[0].close()
     return log.result()
 
 
@@ -400,6 +465,43 @@ def run_program(prog, log):
     if [pyj(to_python(v)) for v in collected] != [pyj(w) for w in want]:
         log.violation('collected-answer-changed', {'program': prog['source'], 'after_query': [pyj(to_python(v)) for v in collected], 'at_answer': [pyj(w) for w in want]})
         return
+    # 1b. the same through evaluate_bounded with the documented projection; the recursion limit strikes inside the
+    # projection of one answer (the search itself is shallow).  Whatever comes back must be answers: variable-free
+    # and equal to what the query gave at that position
+    import sys
+    for k in range(len(want) + 1):
+        log.count('cases')
+        x = yp.variable()
+        seen = []
+
+        def burn(n):
+            return burn(n - 1) + 1 if n else 0
+
+        def proj(_):
+            seen.append(1)
+            if len(seen) - 1 == k:
+                burn(260)
+            return x.get_value()
+        base = _depth()
+        try:
+            res = yp.evaluate_bounded(yp.query('p', [x]), proj, recursion_limit=base + 200)
+        except Exception as e:
+            log.ev('bounded-raised', type(e).__name__)
+            log.count('program_bounded_raised')
+            continue
+        if k < len(want):
+            log.count('program_bounded_projection_fault')
+        log.ev('bounded', k, len(res))
+        for i, val in enumerate(res):
+            if raw_has_variable(val):
+                log.violation('collected-answer-contains-variable', {'program': prog['source'], 'idiom': 'evaluate_bounded(query, lambda _: v.get_value()) with the recursion limit striking inside the projection of answer %d' % k, 'position': i})
+                return
+        got = [pyj(to_python(v)) for v in res]
+        # positions are those of the answers that were projected: the answers before k, then (if the engine goes on) the later ones
+        allowed = [[pyj(w) for w in want[:k]], [pyj(w) for w in want[:k] + want[k + 1:]]]
+        if got not in allowed:
+            log.violation('collected-answer-changed', {'program': prog['source'], 'idiom': 'evaluate_bounded', 'fault_at_answer': k, 'returned': got, 'answers': [pyj(w) for w in want]})
+            return
     # 2. findall
     log.count('cases'); log.count('program_findall')
     lst = yp.variable()
